@@ -134,6 +134,15 @@ let () = iter_lines (fun line ->
       let nm = List.length (List.filter (function EMalloc _ -> true | _ -> false) h.trace) in
       Printf.printf "tjinit ok=%d n=%d live=%d badfree=%s hd=%d\n" (if ok then 1 else 0) nm (List.length h.live) (dec_of_z h.badfree)
         (if tjinit_handler_destroys then 1 else 0)
+  | [ "tjalloc" ] ->
+      (* per generated program: number of malloc calls of a failure-free call with 1, 3 and 4 components *)
+      let rec go ps ns i = match ps, ns with
+        | p :: pr, n :: nr ->
+            let c k = int_of_nat (acq_count p (nat_of_int k)) - int_of_nat n in
+            Printf.printf "%s%d:%d:%d:%d" (if i = 0 then "tjalloc " else " ") i (c 1) (c 3) (c 4);
+            go pr nr (i + 1)
+        | _, _ -> print_newline () in
+      go tj_progs tj_nonmalloc 0
   | "vacc" :: _ ->
       (* virtual-array access path with backing store: same line as harness/c14.c do_vacc *)
       let body = String.sub line 4 (String.length line - 4) in
